@@ -154,6 +154,13 @@ CANARIES = [
     ("force-lock-target-not-released", "c08_sets", "_utils/lock_management.py", "    tensor_refs.append(tensor.data)\n", "", r"C08\.force_lock.*finalizer_on_creator"),
     ("force-lock-finalizer-on-tensor", "c08_sets", "_utils/lock_management.py", "    finalize(\n        tensor.creator,", "    finalize(\n        tensor,", r"C08\.force_lock.*finalizer_on_creator"),
     ("release-op-skips-first", "c08_sets", "_utils/lock_management.py", "    for arr in arr_refs:\n        _release_lock_on_arr_writeability(arr)", "    for arr in list(arr_refs)[1:]:\n        _release_lock_on_arr_writeability(arr)", r"C08\.release_op.*one_release_per_live_array"),
+    # ---- shape setter (c04_shape) ---------------------------------------------------------------------------------------------------
+    ("shape-repoints-owner-not-parent", "c04_shape", "tensor_base.py", "            creator = graph.base.placeholder.creator.variables[0]\n", "            creator = base\n", r"C04\.shape.*(direct_parent_lists_placeholder|other_children_lists_untouched)"),
+    ("shape-parent-drops-siblings", "c04_shape", "tensor_base.py", "                    w if w is not self else graph.base.placeholder\n                    for w in creator._view_children\n", "                    graph.base.placeholder\n                    for w in creator._view_children\n                    if w is self\n", r"C04\.shape.*direct_parent_lists_placeholder"),
+    ("shape-out-base-not-set", "c04_shape", "tensor_base.py", "        out._base = graph.base.placeholder.base\n", "", r"C04\.shape.*self_mirrors_reshaped_placeholder_with_its_base"),
+    ("shape-placeholder-does-not-adopt", "c04_shape", "tensor_base.py", "        graph.base.placeholder._view_children.append(self)\n", "", r"C04\.shape.*placeholder_adopts_self_once"),
+    ("shape-views-replayed-on-self", "c04_shape", "tensor_base.py", "            parent = node.parent if node.parent is not self else unshaped\n", "            parent = node.parent\n", r"C04\.shape.*views_replayed_on_parent_or_on_unreshaped_self"),
+    ("shape-views-not-rerouted", "c04_shape", "tensor_base.py", "            _dup.mirror_tensor(source=view, target=node.tensor)\n            _dup.reroute_ops_through(source=view, target=node.tensor)\n            parent._view_children.append(node.tensor)", "            _dup.mirror_tensor(source=view, target=node.tensor)\n            parent._view_children.append(node.tensor)", r"C04\.shape.*(views_replayed|nothing_else)"),
     ("ctx-exit-no-dec", "c15_ctx", "_utils/__init__.py", "        self._depth -= 1\n        self.state = self._depth_tracker.pop(self._depth)", "        self.state = self._depth_tracker.pop(self._depth - 1)", r"C15\.ctx\..*__exit__\.depth"),
     ("ctx-enter-order", "c15_ctx", "_utils/__init__.py", "        self._depth_tracker[self._depth] = self.state\n        self._depth += 1\n        self.state = self._enter_set_value", "        self._depth += 1\n        self.state = self._enter_set_value\n        self._depth_tracker[self._depth - 1] = self.state", r"C15\.ctx\..*__enter__\.saved"),
     ("ctx-exit-swallow", "c15_ctx", "_utils/__init__.py", "        self.state = self._depth_tracker.pop(self._depth)\n", "        self.state = self._depth_tracker.pop(self._depth)\n        return True\n", r"C15\.ctx\..*(returns_falsy|exception_propagates)"),
